@@ -24,6 +24,9 @@ def run(ctx):
     # "the replication start" the clock is reset to, and the warm-up time, are what the replication object reports (shared rule with C02 / C03 / C11)
     ctx.uses('experiment')
     S.replication_frame(ctx, 'R6.6')
+    # "whatever happened in the replication before": a start command runs with its own bound and inclusiveness, not with what an earlier
+    # command left behind in the simulator (shared rule with C03)
+    S.r31_horizon(ctx, sc)
     # "discards every event still pending": initialize relies on the event list's clear() and on its membership answers afterwards
     # (observers and heap discipline: shared rules with C01)
     from . import c01
